@@ -26,7 +26,8 @@ func init() { suites["C19"] = suiteC19 }
 func runPlugin(req *pluginpb.CodeGeneratorRequest) (*pluginpb.CodeGeneratorResponse, error) {
 	bin := os.Getenv("VERIF_PLUGIN")
 	if bin == "" {
-		bin = "/verif/.cache/bin/protoc-gen-grpchan"
+		// (bin/check always sets VERIF_PLUGIN to the plugin it has just built from the tree under test)
+		return nil, fmt.Errorf("VERIF_PLUGIN is not set")
 	}
 	in, err := proto.Marshal(req)
 	if err != nil {
